@@ -1875,7 +1875,7 @@ def abstract_test(S, store, hname="H"):
     each in [0,1]; the argument it was called with is recorded"""
     def call(I, a, k):
         from pyvc.npmodel import to_arr
-        pop = to_arr(I, a[0])
+        pop = to_arr(I, a[0] if a else k.get("x"))
         store.append(pop)
         H = S.array(hname + str(len(store)), pop.length, 0, 1)
         return (XR.finvar(ctx().fresh("pval"), npk=True), H)
